@@ -9,7 +9,7 @@ LEAN_MODULES = ['Glom.Props.C11']
 FACT_FILES = ['TFacts', 'ExcFacts', 'RegFacts', 'MutFacts', 'c11']
 READY = True
 MANIFEST = dict(
-    text="Lean 4 theorems about an executable model of Assign.__init__/glomit, arg_val/_ArgValuator.mode, _assign_op, _apply_for_each and the `assign` registry op on a heap with object identity: for every heap (sharing, cycles), target, wildcard-free destination of any length, value and `missing` factory the model's outcome IS the plain-Python nested assignment (same object returned; result heap equal to `pySet`; every other pre-existing cell untouched; on any failure — at every depth of the `missing` backfill, inside the value's evaluation — every pre-existing cell unchanged; with `missing` exactly one factory call per absent segment, the attach is the last and only write to a pre-existing cell; factories that return a non-container: nothing can be created on `0` / '' / None unless the next step is a wildcard) [c11_refines, c11_atomic, c11_frame, c11_missing]; the exact outcome at the parent for every container kind and registered handler, PathAssignError(e) exactly when the extracted except-clause names e, UnregisteredTarget for types registered False, list indices exactly [-n, n) [c11_exact_outcome, c11_list_index; the handler table is a parameter: c11_facts_wf_ureg]; LITERAL CONTAINERS in val position: arg_val touches no pre-existing cell, rebuilds ONE list/dict per distinct original (memo = partial injection, never dropped: sharing and cycles of the literal are kept), then the rebuilt value is assigned like any other [c11_argval_fresh, c11_copy_once, c11_copy_memo, c11_lit_refines, c11_lit_atomic, c11_lit_model_checks, facts obligation c11_facts_argval on _ArgValuator's source]; put-get under the hypothesis the proof forces (counter-example kept) and put-put (assign twice = last wins) [c11_put_get_partial, c11_put_put_partial]; read-back in the same chain [c11_read_checks]; the path an Assign keeps is the path as it is read [c11_facts_s_first, c11_refines_spec]; wildcard destinations assign at every match in order [c11_star, facts: one evaluation of the rest per entry]; ONE SPEC OBJECT, OVERLAPPING EVALUATIONS: the model reads nothing of its state but the heap [c11_from_any_state], a factory that re-enters glom with the same Assign object at its first call leaves this evaluation exactly what it is alone [c11_reenter_first, c11_reenter_spent; facts: no method of Assign but __init__ stores into self]. Facts obligations by `decide` on the tables regenerated from /repo; model tied to the code by differential execution (full heap snapshot compared up to the numbering of the cells created during the call, exception class chain, factory call count, the value a later chain step reads back, the scope frame as a later chain step sees it, the caller's scope mapping unchanged).",
+    text="Lean 4 theorems about an executable model of Assign.__init__/glomit, arg_val/_ArgValuator.mode, _assign_op, _apply_for_each and the `assign` registry op on a heap with object identity: for every heap (sharing, cycles), target, wildcard-free destination of any length, value and `missing` factory the model's outcome IS the plain-Python nested assignment (same object returned; result heap equal to `pySet`; every other pre-existing cell untouched; on any failure — at every depth of the `missing` backfill, inside the value's evaluation — every pre-existing cell unchanged; with `missing` exactly one factory call per absent segment, the attach is the last and only write to a pre-existing cell; factories that return a non-container: nothing can be created on `0` / '' / None unless the next step is a wildcard) [c11_refines, c11_atomic, c11_frame, c11_missing]; the exact outcome at the parent for every container kind and registered handler, PathAssignError(e) exactly when the extracted except-clause names e, UnregisteredTarget for types registered False, list indices exactly [-n, n) [c11_exact_outcome, c11_list_index; the handler table is a parameter: c11_facts_wf_ureg]; LITERAL CONTAINERS in val position: arg_val touches no pre-existing cell, rebuilds ONE list/dict per distinct original (memo = partial injection, never dropped: sharing and cycles of the literal are kept), then the rebuilt value is assigned like any other [c11_argval_fresh, c11_copy_once, c11_copy_memo, c11_lit_refines, c11_lit_atomic, c11_lit_model_checks, facts obligation c11_facts_argval on _ArgValuator's source]; put-get under the hypothesis the proof forces (counter-example kept) and put-put (assign twice = last wins) [c11_put_get_partial, c11_put_put_partial]; read-back in the same chain [c11_read_checks]; the path an Assign keeps is the path as it is read [c11_facts_s_first, c11_refines_spec]; wildcard destinations assign at every match in order [c11_star, facts: one evaluation of the rest per entry]; ONE SPEC OBJECT, OVERLAPPING EVALUATIONS: the model reads nothing of its state but the heap [c11_from_any_state], a factory that re-enters glom with the same Assign object at its first call leaves this evaluation exactly what it is alone [c11_reenter_first, c11_reenter_spent; facts: no method of Assign but __init__ stores into self]. WHICH ERROR: the exception of a failing wildcard-free assignment is the one the reading prescribes — ValueError / PathAccessError(e,k) / PathAssignError(e) for a plain segment / Python's own e for T[..], T.attr / UnregisteredTarget — checked on the implementation as part of `holds` [c11_error_class, c11_err_checks, c11_facts_wrap]; checker theorem for wildcard destinations [c11_star_model_checks]; the model's int() domain is an explicit hypothesis [intSafe]. Facts obligations by `decide` on the tables regenerated from /repo; model tied to the code by differential execution (full heap snapshot, the ORDER of the writes through logging stand-ins — attached last, no transient write by a failing call — compared up to the numbering of the cells created during the call, exception class chain, factory call count, the value a later chain step reads back, the scope frame as a later chain step sees it, the caller's scope mapping unchanged).",
     note="trusted: Lean kernel + {propext, Classical.choice, Quot.sound}; extractor (extract/facts/c11.py); harness/driver; CPython's setitem/setattr/delitem/delattr on dict/list/tuple/set/plain instances and the fault classes of harness/props/mutobjs.py as modelled in Glom/Model/C11.lean (validated by the correspondence only); registry lookup = first registered class of the MRO (C13 covers the registry itself); `**` destinations outside the model; literal values: dict keys of literals are scalars, sets hold scalars; the wildcard theorem covers destinations whose parent exists; overlapping evaluations are proved transparent for re-entry at the FIRST factory call under explicit non-interference equations, re-entry at later calls and the two-thread variant are covered by the correspondence only (prescription: the two plain assignments in sequence, compared up to numbering of new cells, on records that share nothing).",
     technique='Lean 4 refinement proof (Assign model = plain nested assignment on a heap, frame + atomicity lemmas; arg_val graph-copy invariants; state-shift lemma for re-use / re-entrancy) + facts obligations by decide + differential correspondence',
     ref='DESIGN.md §3 C11')
@@ -29,14 +29,31 @@ RULE = ('type-directed: a nested target (dict/OrderedDict/dict subclass with __d
         '(the factory re-enters glom with the same spec at its 1st/2nd/3rd call, or two threads meet inside the factory); 5% are regular nested targets '
         'under one `*` per level, most with the SAME leaf / sub-container matched more than once; missing in {None, dict, list, object factory, tuple, raising '
         'factory, factories returning a non-container: int, str, lambda: None}; a one-edit mutation stream plants a bad segment / wrong access kind at every position. '
+        'values also Val(x) (stored as it is), Spec(T…) / Spec(text), callables (stored, not called); 30% of the ordinary cases '
+        'record the ORDER of the writes (logging stand-ins); bad segments include int()-unsafe ones (\' 1 \', \'0_1\', Arabic digits, floats); '
+        '`**` in one of eight wildcard destinations; deque targets; '
         'non-trivial = path length >= 2, or an error, or a factory call, or a wildcard; distinct = '
         'distinct (heap, target, scope, root, spelling, value, missing)')
 TRUSTED = ['mutation primitives of CPython and the fault classes of harness/props/mutobjs.py as modelled in '
            'lean/Glom/Model/C11.lean (per-class flags computed by introspection)',
            'segments stay in the int() subset [+-]?[0-9]+; attribute names disjoint from real attributes '
            'of builtin types and of ChainMap']
-ASSUMPTIONS = ['default registry (no user registrations): C13 covers registration', 'PATH_STAR = True',
-               '`**` destinations are skipped (enumeration order of `**` is C14)']
+ASSUMPTIONS = ['registry lookup = first registered class of the MRO (C13 covers the registry); the prescription uses '
+               'kind-fixed tables for the builtin types (c11_facts_natural), user registrations as the case made them',
+               'PATH_STAR = True',
+               '`**` destinations: generated, checked for same-object only (the enumeration order of `**` is C14)',
+               'READING (F11-1): which error — ValueError from the constructor; PathAccessError(e, part_idx=k) where the parent '
+               'path (no factory) or the value path stops; a failing final step is PathAssignError(e, dest_name) for a plain '
+               'segment (any exception of the registered handler means "cannot be assigned") and Python\'s own exception for '
+               'T[..] / T.attr; UnregisteredTarget for a type without handler; inside the missing= backfill: some error [refErr]',
+               'READING (F11-10): "left exactly as it was" = glom performs no write; side effects of the target\'s own READS '
+               '(defaultdict, a storing __missing__, counting getters) are the target\'s — such classes are not in the catalogue '
+               '(the model\'s reads are pure)',
+               'READING (F11-9): the model\'s int() is [+-]?[0-9]+; segments CPython\'s int() reads differently (whitespace, '
+               'underscores, non-ASCII digits, floats) are generated but only checked for same-object / atomicity [intSafe is a '
+               'hypothesis of every theorem]',
+               'write order (F11-2): observed on the implementation through logging stand-ins of plain dict / list / Obj and of '
+               'the factory objects; other classes are not logged']
 
 # Probability of spelling the FIRST step of an S-rooted destination as `S.name` / `Path(S, name)` instead
 # of `S[name]`: all three name the scope variable (reading: core._s_first_magic; Assign / Delete:
@@ -53,6 +70,9 @@ S_STAR_READBACK = True
 MISSING = [None] * 8 + ['dict'] * 5 + ['list', 'obj', 'obj', 'raise', 'int', 'str', 'none', 'tuple']
 
 
+# `Val(x)`, `Spec(path)` and callables in `val` position.  False: not generated.
+SPEC_VALUES = True
+
 # Literal containers in `val` position (arg mode REBUILDS exact list / dict / tuple / set / frozenset
 # objects: one rebuilt list / dict per distinct original — sharing and cycles are kept —, T leaves are
 # evaluated against the target).  False: such values are not generated.
@@ -66,6 +86,25 @@ def gen_value(rng, heap, root, force=None):
         # a literal container written by the user: sharing, cycles, T leaves, references into the target
         return {'lit': M.gen_template(rng, heap, root, maxdepth=rng.choice([2, 3, 3, 4]),
                                       tleaf_p=rng.choice([0, 0.15, 0.3]))}
+    p = rng.random()
+    if SPEC_VALUES and p < 0.08:
+        # `Val(x)`: x itself, whatever it is — a container is stored as it is (never rebuilt), a T inside it stays a T
+        conts = [a for a, c in enumerate(heap) if c['c'] not in ('Scope', 'TLeaf')
+                 and not (c['k'] in ('tuple', 'set') and not c['v'])]
+        q = rng.random()
+        if q < 0.5 and conts:
+            return {'val': {'r': rng.choice(conts)}}
+        if q < 0.7:
+            return {'val': M.gen_template(rng, heap, root, maxdepth=2, tleaf_p=0.2, want_shared=False)}
+        return {'val': M.jval(rng.choice(M.SCALARS))}
+    if SPEC_VALUES and p < 0.11:
+        return {'lit': {'fn': rng.choice(sorted(M.CALLABLES))}}      # a callable as value: stored, not called
+    if SPEC_VALUES and p < 0.17:
+        # `Spec(T…)` / `Spec('a.b')`: evaluated against the target like a bare T / path
+        walk, _ = M.valid_walk(rng, heap, root, rng.randint(1, 3), prefer_deep=False)
+        if all(M.text_ok(k, key) for k, key in walk) and walk and rng.random() < 0.5:
+            return {'text': '.'.join(M.seg_text(k, key) for k, key in walk)}
+        return {'t': [['.' if k == 'attr' else '[', key] for k, key in walk], 'wrap': 'Spec'}
     p = rng.random()
     if p < 0.5:
         return {'lit': M.jval(rng.choice(M.SCALARS + [42, 'new']))}
@@ -160,9 +199,14 @@ def one_case(rng, tier, classes, cflags, force=None):
         sp = M.s_first(rng, sp, S_FIRST_PLAIN_P)
     if scope is None:
         cflags = [f for f in cflags if f[0] != 'Scope']
+    value = gen_value(rng, heap, root, force)
+    # write order observed on the implementation (plain dict / list / Obj cells and factory objects are
+    # logging stand-ins): only with values arg mode does not rebuild
+    logged = bool(WRITE_LOG and rng.random() < force.get('log_p', 0.3) and
+                  not (isinstance(value.get('lit'), dict) and 'r' in value['lit']) and 'val' not in value)
     return {'classes': classes, 'cflags': cflags, 'heap': heap, 'target': root, 'scope': scope,
-            'root': 'S' if sroot else 'T', 'spelling': sp, 'style': style,
-            'value': gen_value(rng, heap, root, force), 'missing': missing,
+            'root': 'S' if sroot else 'T', 'spelling': sp, 'style': style, 'logged': logged,
+            'value': value, 'missing': missing,
             'readback': gen_readback(rng, steps, style, force.get('chain_p', 0.75 if sroot else 0.3), sroot),
             'warmup': rng.choice([1, 2, 2]) if rng.random() < force.get('warm_p', 0.15) and not ureg else 0,
             'api': rng.choice(['assign', 'Assign']), 'ureg': M.ureg_tables(ureg) if ureg else None,
@@ -172,6 +216,10 @@ def one_case(rng, tier, classes, cflags, force=None):
 # User types: classes registered on a private Glommer with explicit get / assign / delete handlers
 # (every handler kind, False, a raising handler of the user's own).  False: not generated.
 USER_REGISTRATIONS = True
+
+# The ORDER of glom's writes, observed on the implementation (30% of the ordinary cases): "attached last",
+# and no write at all to a pre-existing object when the call fails.  False: not observed.
+WRITE_LOG = True
 
 # One Assign object evaluated by two OVERLAPPING calls: the `missing` factory of the call on `target`
 # re-enters glom with the same spec object on a second record (`target2`: a copy of the target's cells
@@ -261,6 +309,7 @@ class Factory:
         self.nested = False
         self.barrier = None         # (at, threading.Barrier) | None
         self.local = None
+        self.logged = None          # Encoder: make logging stand-ins of dict / list / Obj and tell the encoder
 
     def __call__(self):
         self.calls += 1
@@ -280,8 +329,13 @@ class Factory:
                     pass
         if self.kind == 'raise':
             raise RuntimeError('factory')
-        o = {'dict': dict, 'list': list, 'obj': M.Obj, 'tuple': tuple, 'int': int, 'str': str,
-             'none': lambda: None}[self.kind]()
+        if self.logged is not None and self.kind in ('dict', 'list', 'obj'):
+            name = {'dict': 'dict', 'list': 'list', 'obj': 'Obj'}[self.kind]
+            o = M.LOGGED[name]()
+            self.logged.alias[id(o)] = name
+        else:
+            o = {'dict': dict, 'list': list, 'obj': M.Obj, 'tuple': tuple, 'int': int, 'str': str,
+                 'none': lambda: None}[self.kind]()
         if self.kind not in ('int', 'str', 'none'):     # (a factory that returns a non-container creates nothing)
             self.made.append(o)
         return o
@@ -316,7 +370,8 @@ def run_overlapping(glom, spec, fac, target, target2, ree):
 def run_impl(case):
     import glom
     from glom import Assign, Path
-    objs, dv = M.decode(case['heap'])
+    logged = bool(case.get('logged'))
+    objs, dv = M.decode(case['heap'], logged=logged)
     enc = M.Encoder(objs, case['heap'])
     target = dv(case['target'])
     kwargs = {}
@@ -329,12 +384,23 @@ def run_impl(case):
         kwargs['scope'] = caller
     v = case['value']
     if 'lit' in v:
-        val = dv(v['lit'])          # a scalar, an object, a literal container (T leaves included), a T-expression
+        val = dv(v['lit'])          # a scalar, an object, a literal container (T leaves included), a T-expression, a callable
+    elif 'val' in v:
+        val = glom.Val(dv(v['val']))
+    elif 'text' in v:
+        val = glom.Spec(v['text'])
     else:
         val = M.build_t(v['t'], dv)
+        if v.get('wrap') == 'Spec':
+            val = glom.Spec(val)
     fac = Factory(case['missing']) if case.get('missing') else None
+    if fac is not None and logged:
+        fac.logged = enc
     ree = case.get('reenter')
     out = dict(case)
+    del M.WLOG[:]
+    for k in ('scope', 'missing', 'readback', 'reenter', 'ureg', 'ureg_src', 'warmup', 'logged'):      # (cases stored before these fields existed)
+        out.setdefault(k, None)
     default_map = glom.core._DEFAULT_SCOPE.maps[0]
     default_keys = set(default_map)
     rb = case.get('readback')
@@ -352,6 +418,7 @@ def run_impl(case):
         else:
             spec = Assign(path, val, missing=fac)
             M.warm_up(case, spec, fac)       # the same spec object, used on other targets before
+            del M.WLOG[:]
             if ree:
                 res = run_overlapping(glom, spec, fac, target, dv(ree['target2']), ree)
             elif rb:
@@ -399,14 +466,17 @@ def run_impl(case):
         scope_kept = (len(now) == len(caller_before) and
                       all(k1 is k0 or (type(k1) is type(k0) and k1 == k0) for (k0, _), (k1, _) in zip(caller_before, now))
                       and all(x1 is x0 for (_, x0), (_, x1) in zip(caller_before, now)))
+    # the objects written to, in order, by address (None: an object the encoder never met)
+    wlog = [enc.ids.get(i) for i in M.WLOG] if logged else None
+    del M.WLOG[:]
     out['impl'] = {'res': r, 'heap': heap, 'calls': fac.calls if fac else 0, 'hidden': enc.hidden(),
-                   'read': read, 'frame_seen': frame_seen, 'scope_kept': scope_kept}
+                   'read': read, 'frame_seen': frame_seen, 'scope_kept': scope_kept, 'wlog': wlog}
     return out
 
 
 def key(case):
     return {k: case.get(k) for k in ('heap', 'target', 'scope', 'root', 'spelling', 'style', 'value', 'missing',
-                                     'warmup', 'readback', 'reenter', 'ureg_src')}
+                                     'warmup', 'readback', 'reenter', 'ureg_src', 'logged')}
 
 
 def nontrivial(case, verdict):
@@ -418,8 +488,11 @@ def nontrivial(case, verdict):
 def shrink(case):
     yield from M.shrink_common(case)
     base = {k: v for k, v in case.items() if not k.startswith('impl')}
-    if 't' in case['value'] and case['value']['t']:
-        c = dict(base); c['value'] = {'t': case['value']['t'][:-1]}
+    if case['value'].get('t'):
+        c = dict(base); c['value'] = dict(case['value'], t=case['value']['t'][:-1])
+        yield c
+    if 'val' in case['value'] or 'text' in case['value'] or case['value'].get('wrap'):
+        c = dict(base); c['value'] = {'lit': {'i': 42}}
         yield c
     if case.get('scope') is not None and case.get('root') != 'S':
         c = dict(base); c['scope'] = None
@@ -479,6 +552,6 @@ def focus(disagreements, facts_changed):
         f['deep_star_p'] = 0.3
     if any(c.get('reenter') for c, _ in disagreements):
         f['reenter_p'] = 0.5
-    if any(isinstance(c['value'].get('lit'), dict) and 'r' in c['value']['lit'] for c, _ in disagreements):
+    if any(isinstance(c['value'].get('lit'), dict) and 'r' in c['value'].get('lit', {}) for c, _ in disagreements):
         f['tmpl_p'] = 0.5
     return f
